@@ -667,7 +667,7 @@ Qed.
 Lemma mstep_cache s o :
   ms_cache (fst (fst (fst (mstep s o)))) = fst (fst (cstep (ms_cache s) o)).
 Proof.
-  unfold mstep. destruct (cstep (ms_cache s) o) as [[c' r] f]. cbn [fst].
+  unfold mstep, mstep_gen. destruct (cstep (ms_cache s) o) as [[c' r] f]. cbn [fst].
   destruct o;
     repeat match goal with
            | |- context [let '(_, _) := ?x in _] => destruct x
@@ -1619,3 +1619,67 @@ Qed.
     concatenation of what each step would have delivered *)
 Lemma zip_app_nil {A} (l : list (list A)) : zip_app (map (fun _ => []) l) l = l.
 Proof. induction l as [|x l IH]; cbn; [reflexivity|now rewrite IH]. Qed.
+
+
+(** * Round 6: names that look like defaults, and construction options *)
+
+(** the per-root delete Reset announces is a whole-target delete only for the
+    empty root name (which the tree cannot hold): whatever a root or origin is
+    called -- openconfig, default, the target's own name, "*" -- its delete never
+    ends a single-target stream *)
+Theorem reset_root_delete_not_target_delete name r now :
+  r <> ""%string -> is_target_delete (delete_noti name r now ["*"]) = false.
+Proof.
+  intros Hr. unfold is_target_delete, delete_noti. cbn [n_del n_prefix gp_of_opt gp_origin].
+  destruct (String.eqb_spec r ""); [contradiction|reflexivity].
+Qed.
+
+Theorem reset_root_delete_keeps_stream name r now T q :
+  r <> ""%string ->
+  snd (stream_feed T q [delete_noti name r now ["*"]]) = false.
+Proof.
+  intros Hr. cbn [stream_feed]. rewrite (reset_root_delete_not_target_delete name r now Hr).
+  rewrite andb_false_r. destruct (offered T q (delete_noti name r now ["*"])); reflexivity.
+Qed.
+
+(** cache.WithServerName: the refresh of the leaf meta/serverName keeps the
+    invariant, touches no other target, announces only entries carrying the
+    target's own name, and leaves every path outside meta/serverName alone *)
+Lemma srv_refresh_inv sname now name t :
+  tinv name t ->
+  tinv name (fst (srv_refresh sname now t)) /\ Forall (owns name) (snd (srv_refresh sname now t)).
+Proof.
+  intros Hi. unfold srv_refresh.
+  match goal with |- context [if ?b then _ else _] => destruct b end; [split; [exact Hi|constructor]|].
+  destruct (gnmi_update1 t now (meta_noti (t_name t) now md_server_name (TStr sname))) as [t' r] eqn:E.
+  assert (Ho : owns name (meta_noti (t_name t) now md_server_name (TStr sname)))
+    by (destruct Hi as [_ Hn]; rewrite Hn; apply owns_meta_noti).
+  destruct (tinv_step name t now _ t' r Hi Ho E) as [Hi' Hnd].
+  destruct r as [[nd|]|e|w]; cbn [fst snd]; (split; [exact Hi'|]); try constructor; auto.
+Qed.
+
+Theorem srv_refresh_in_local sname now c name :
+  cinv c ->
+  cinv (fst (srv_refresh_in sname now c name)) /\
+  Forall (owns name) (snd (srv_refresh_in sname now c name)) /\
+  forall k, k <> name ->
+    assoc k (c_targets (fst (srv_refresh_in sname now c name))) = assoc k (c_targets c).
+Proof.
+  intros Hc. unfold srv_refresh_in. destruct (assoc name (c_targets c)) as [t|] eqn:Ea.
+  2:{ cbn. split; [exact Hc|]. split; [constructor|reflexivity]. }
+  destruct (srv_refresh_inv sname now name t (proj2 Hc _ _ Ea)) as [Hi Hf].
+  destruct (srv_refresh sname now t) as [t' l]. cbn [fst snd] in *.
+  split; [now apply cinv_set_target|]. split; [exact Hf|]. intros k Hk. now apply set_target_other.
+Qed.
+
+Theorem srv_refresh_frame sname now t q :
+  wf_tree (t_tree t) -> t_name t <> ""%string -> q <> [md_root; md_server_name] ->
+  lookup (t_tree (fst (srv_refresh sname now t))) q = lookup (t_tree t) q.
+Proof.
+  intros Hwf Hne Hq. unfold srv_refresh.
+  match goal with |- context [if ?b then _ else _] => destruct b end; [reflexivity|].
+  destruct (gnmi_update1 t now (meta_noti (t_name t) now md_server_name (TStr sname))) as [t' r] eqn:E.
+  pose proof (gnmi_update1_frame t now _ t' r [md_root; md_server_name] q Hwf E
+                (unit_index_meta_noti _ _ _ _ Hne) Hq) as H.
+  destruct r as [[nd|]|e|w]; exact H.
+Qed.
